@@ -722,6 +722,46 @@ def strip_opaque(interp, atom, chars, left, right):
     return sym.mk_rope([('opq', T, a, b_)])
 
 
+_SPLIT_CACHE = {}
+SPLIT_MAX_PIECES = 3
+
+
+def split_opaque(interp, atom, sep, maxsplit, right):
+    """Assumed contract of str.split/rsplit(sep, maxsplit) with an explicit non-empty separator on a text of symbolic
+    length, for results of at most SPLIT_MAX_PIECES pieces (bounded): the pieces are consecutive slices of the text
+    separated by exactly `sep`, the first starts at 0 and the last ends at the end."""
+    c = ctx()
+    _, T, lo, hi = atom
+    if not c.truth(i_cmp('!=', sym.s_len(sep), 0)):
+        raise PyExc('ValueError', 'empty separator', True)
+    ls = sym.s_len(sep)
+    key = (T.name, sym._lin(lo), sym._lin(hi), str(str_term(sep)), str(maxsplit), right)
+    ent = _SPLIT_CACHE.get(key)
+    if ent is None:
+        ent = {'id': len(_SPLIT_CACHE)}
+        _SPLIT_CACHE[key] = ent
+    ck = ('split_k', key)
+    if ck not in c.cache:
+        c.cache[ck] = c.choice(SPLIT_MAX_PIECES) + 1   # the number of pieces is a function of the call
+    k = c.cache[ck]
+    if is_int(maxsplit):
+        c.assume(b_or(i_cmp('<', maxsplit, 0), i_cmp('<=', k - 1, maxsplit)))
+    pieces = []
+    a = lo
+    for i in range(k):
+        if i == k - 1:
+            b_ = hi
+        else:
+            b_ = sym.int_const('split_b!%d_%d_%d' % (ent['id'], k, i))
+            c.assume(i_cmp('>=', b_, a))
+            c.assume(i_cmp('<=', i_add(b_, ls), hi))
+            here = sym.mk_rope([('opq', T, b_, i_add(b_, ls))])
+            c.assume(str_term(here) == str_term(sep))
+        pieces.append(sym.mk_rope([('opq', T, a, b_)]))
+        a = i_add(b_, ls)
+    return PList(pieces)
+
+
 def str_split(interp, s, sep=None, maxsplit=-1):
     if isinstance(s, str) and (sep is None or isinstance(sep, str)) and not is_z3(maxsplit):
         return PList(s.split(sep, maxsplit))
@@ -1495,9 +1535,14 @@ def str_method(interp, recv, name, args, kwargs):
         r = hook(interp, recv, args, kwargs)
         if r is not NotImplemented:
             return r
-    if name == 'split':
+    if name in ('split', 'rsplit'):
         sep = args[0] if args else kwargs.get('sep')
         mx = args[1] if len(args) > 1 else kwargs.get('maxsplit', -1)
+        at = sym.atoms_of(recv) if is_str(recv) else ()
+        if len(at) == 1 and at[0][0] == 'opq' and sym.s_chars(recv) is None and is_str(sep):
+            return split_opaque(interp, at[0], sep, mx, name == 'rsplit')
+        if name == 'rsplit':
+            raise Unsupported('rsplit on symbolic string')
         return str_split(interp, recv, sep, mx)
     if name in ('strip', 'lstrip', 'rstrip'):
         ch = args[0] if args else None
@@ -1535,6 +1580,16 @@ def str_method(interp, recv, name, args, kwargs):
                 if len(at) == 1 and at[0][0] == 'opq':
                     sl = sym.mk_rope([('opq', at[0][1], i_add(at[0][2], r), i_add(at[0][2], i_add(r, ls)))])
                     c.assume(z3.Implies(Z(r) >= 0, str_term(sl) == str_term(sub)))
+                    sa = sym.atoms_of(sub)
+                    if name == 'find' and len(sa) == 1 and sa[0][0] == 'opq' and sa[0][1] is at[0][1]:
+                        # the pattern is itself the slice [p, q) of this text: an occurrence at p is known, so the
+                        # first occurrence at or after `start` is not later than p (when start <= p)
+                        p = i_sub(sa[0][2], at[0][2])
+                        st = args[1] if len(args) > 1 and args[1] is not None else 0
+                        if is_int(st) and (len(args) < 3 or args[2] is None) and c.truth(i_cmp('>=', st, 0)):
+                            if c.truth(i_cmp('<=', st, p)):
+                                c.assume(i_cmp('>=', r, 0))
+                                c.assume(i_cmp('<=', r, p))
             if len(args) > 1 and args[1] is not None and is_int(args[1]):
                 st = args[1]
                 c.assume(b_or(i_cmp('==', r, -1), i_cmp('<', st, 0), i_cmp('>=', r, st)))
